@@ -13,6 +13,7 @@ The deductive part proves the cache invariant of Parser.parse_forest; this harne
 """
 from __future__ import annotations
 
+import itertools
 import os
 import random
 import sys
@@ -26,7 +27,8 @@ EXTRA_SPECS = {
     "bytes_regex_text": '<start> ::= <h> <p>\n<h> ::= "k"\n<p> ::= rb"[ab]{1,2}"\n',   # a bytes regex scanned in str and bytes inputs
     "two_starts": '<start> ::= <x> ";" <y>\n<x> ::= "a" | "aa"\n<y> ::= <x>{1,2}\n',
 }
-EXTRA_WORDS = {"catalan": ["a" * k for k in range(1, 8)]}
+EXTRA_WORDS = {"catalan": ["a" * k for k in range(1, 7)]}      # up to 42 complete parses (the cache-size seeded change needs > 32)
+FOREST_CAP = 60          # trees taken from one forest request (the same cap on the shared and on the new object)
 
 
 def structure(t):
@@ -44,9 +46,9 @@ def do_request(grammar, req, rnd=None, mutate=False):
     m = ParsingMode.COMPLETE if mode == "complete" else ParsingMode.INCOMPLETE
     try:
         if kind == "forest":
-            trees = list(grammar.parse_forest(word, start, mode=m))
+            trees = list(itertools.islice(grammar.parse_forest(word, start, mode=m), FOREST_CAP))
         elif kind == "multiple":
-            trees = list(grammar.parse_multiple(word, start, mode=m))
+            trees = list(itertools.islice(grammar.parse_multiple(word, start, mode=m), FOREST_CAP))
         elif kind == "first":
             t = grammar.parse(word, start, mode=m)
             trees = [] if t is None else [t]
